@@ -60,6 +60,7 @@ type FoundViolation struct {
 	Violation Violation `json:"violation"`
 	EventHash uint64    `json:"event_hash"`
 	Idx       int       `json:"idx"`
+	History   []int     `json:"history,omitempty"` // indices this worker process had executed before
 }
 
 type WorkerResult struct {
@@ -120,6 +121,7 @@ func runWorker(p *Prop, tier string, seed uint64, offset, stride, max int, budge
 	res := &WorkerResult{Prop: p.ID, Stats: map[string]uint64{}, Edges: map[string]int{}, Faults: map[string]int{}, Probes: map[string]int{}}
 	sigs := map[uint64]struct{}{}
 	seenViol := map[string]int{}
+	var history []int
 	idx := offset
 	for n := 0; n < max; n++ {
 		if budget > 0 && time.Since(start).Seconds() > budget {
@@ -165,12 +167,13 @@ func runWorker(p *Prop, tier string, seed uint64, offset, stride, max int, budge
 			s := v.Sig()
 			seenViol[s]++
 			if seenViol[s] <= 2 && len(res.Violations) < 12 {
-				res.Violations = append(res.Violations, FoundViolation{Scenario: sc, Violation: v, EventHash: rep.EventHash, Idx: idx})
+				res.Violations = append(res.Violations, FoundViolation{Scenario: sc, Violation: v, EventHash: rep.EventHash, Idx: idx, History: append([]int(nil), history...)})
 			}
 			if p.Race && v.Class == "data-race" {
 				stop = true // the race detector de-duplicates per process: continue in a fresh one
 			}
 		}
+		history = append(history, idx)
 		idx += stride
 		if stop {
 			res.Stopped = "race"
@@ -230,7 +233,7 @@ func replayMain(args []string) {
 	if p == nil {
 		die2("scenario for unknown property %q", sc.Property)
 	}
-	rep := p.Run(sc, *trace)
+	rep := runScenario(p, sc, *trace)
 	if sc.Expect != nil && sc.Expect.Class == "data-race" && !*quiet {
 		// the execution is identical every time; whether the race detector can still restore the older access's stack
 		// is not: give it a few executions (reports are only de-duplicated once made)
